@@ -2,6 +2,7 @@ import DirectVerif.Lemmas.C06Assemble
 import DirectVerif.Lemmas.C06Seed
 import DirectVerif.Lemmas.C06Round
 import DirectVerif.Lemmas.C06Crop
+import DirectVerif.Model.C06Grid
 /-!
 # C06 — the autocalibration region is fully sampled, centred and of the requested size
 
@@ -387,6 +388,19 @@ open DirectVerif.C06Crop in
 /-- hypotheses satisfiable; the same configuration on the current order -/
 example : (centeredDisk 24 8 5).getD 96 false = true ∧
     subsetB (centeredDisk 24 8 5) (poissonFrame true 24 8 5 (List.replicate (24 * 8) false)) = true := by decide +kernel
+
+/-! ## index arithmetic of the disc helpers (`Model/C06Grid.lean`) -/
+
+/-- **why the grids must be wide**: in `uint16` the squared distance of the corner (0, 0) of a 512 × 512 k-space from
+the centre, 2 · 256² = 131072, wraps to 0 — the corner is "inside" every disc of radius ≥ 1, while in ℤ it is outside
+a disc of radius 100 -/
+theorem disc_uint16_wraps_violates :
+    C06Grid.inDiskWrapped 16 512 512 100 0 0 = true ∧ inDisk 512 512 100 0 0 = false ∧
+    C06Grid.inDiskWrapped 16 368 368 58 1 0 = true ∧ inDisk 368 368 58 1 0 = false := by decide
+
+/-- in a 64-bit type nothing wraps for these sizes: the wrapped predicate is the exact one -/
+example : C06Grid.inDiskWrapped 64 512 512 100 0 0 = inDisk 512 512 100 0 0 ∧
+    C06Grid.inDiskWrapped 64 368 368 58 184 184 = true := by decide
 
 /-! ## non-vacuity / regression examples -/
 
